@@ -8215,3 +8215,368 @@ func E11ConicFrame(c *core.Ctx, r *core.Report) {
 	r.Count("E11.conic-congruences", n)
 	r.Floor("E11.conic-congruences", 1)
 }
+
+// E11StickyFlag: a boolean that accumulates with `v = v || …` is not overwritten in between.
+func E11StickyFlag(c *core.Ctx, r *core.Report) {
+	r.Rule("E11.sticky-flag", "package canvas: a boolean local that is accumulated somewhere with `v = v || E` (or `E || v`) records that *any* of several steps reported something, and is consulted afterwards. Between a reset to a constant and that use, every further assignment that can follow an earlier non-constant assignment (not in the other branch of the same if/switch) is accumulating as well; a plain `v = E` in that position forgets what the earlier step reported. In bentleyOttmann the flag `has` says that addIntersections cut a segment in the snap square, after which the status must be sorted again; overwriting it with the upper neighbour's result leaves the status unsorted when only the lower neighbour was cut, and the contour builder panics")
+	p := c.MustPkg("")
+	info := p.TypesInfo
+	n := 0
+	for _, fd := range core.AllFuncDecls(p) {
+		if strings.HasSuffix(c.Fset.Position(fd.Pos()).Filename, "_test.go") {
+			continue
+		}
+		type asg struct {
+			pos   token.Pos
+			kind  string // const, acc, plain
+			node  ast.Node
+			stack []ast.Node
+		}
+		byVar := map[types.Object][]asg{}
+		var stack []ast.Node
+		ast.Inspect(fd.Body, func(m ast.Node) bool {
+			if m == nil {
+				stack = stack[:len(stack)-1]
+				return true
+			}
+			stack = append(stack, m)
+			as, ok := m.(*ast.AssignStmt)
+			if !ok || len(as.Lhs) != len(as.Rhs) {
+				return true
+			}
+			for i, l := range as.Lhs {
+				id, ok := l.(*ast.Ident)
+				if !ok {
+					continue
+				}
+				o := core.ObjOf(info, id)
+				v, ok := o.(*types.Var)
+				if !ok || v.IsField() {
+					continue
+				}
+				if b, ok := v.Type().Underlying().(*types.Basic); !ok || b.Kind() != types.Bool {
+					continue
+				}
+				kind := "plain"
+				rhs := core.Unparen(as.Rhs[i])
+				if tv, ok := info.Types[rhs]; ok && tv.Value != nil {
+					kind = "const"
+				} else if be, ok := rhs.(*ast.BinaryExpr); ok && be.Op == token.LOR {
+					var leaves func(e ast.Expr) bool
+					leaves = func(e ast.Expr) bool {
+						e = core.Unparen(e)
+						if b2, ok := e.(*ast.BinaryExpr); ok && b2.Op == token.LOR {
+							return leaves(b2.X) || leaves(b2.Y)
+						}
+						id2, ok := e.(*ast.Ident)
+						return ok && core.ObjOf(info, id2) == o
+					}
+					if leaves(be) {
+						kind = "acc"
+					}
+				}
+				byVar[o] = append(byVar[o], asg{as.Pos(), kind, as, append([]ast.Node{}, stack...)})
+			}
+			return true
+		})
+		exclusive := func(a, b asg) bool {
+			// lowest common ancestor
+			k := 0
+			for k < len(a.stack) && k < len(b.stack) && a.stack[k] == b.stack[k] {
+				k++
+			}
+			if k == 0 || k >= len(a.stack) || k >= len(b.stack) {
+				return false
+			}
+			switch lca := a.stack[k-1].(type) {
+			case *ast.IfStmt:
+				inBody := func(x asg) bool { return lca.Body == x.stack[k] }
+				return inBody(a) != inBody(b)
+			case *ast.BlockStmt:
+				// case clauses of a switch body
+				_, ca := a.stack[k].(*ast.CaseClause)
+				_, cb := b.stack[k].(*ast.CaseClause)
+				return ca && cb
+			}
+			return false
+		}
+		var objs []types.Object
+		for o := range byVar {
+			objs = append(objs, o)
+		}
+		sort.Slice(objs, func(i, j int) bool { return objs[i].Pos() < objs[j].Pos() })
+		for _, o := range objs {
+			as := byVar[o]
+			hasAcc := false
+			for _, a := range as {
+				if a.kind == "acc" {
+					hasAcc = true
+				}
+			}
+			if !hasAcc {
+				continue
+			}
+			sort.Slice(as, func(i, j int) bool { return as[i].pos < as[j].pos })
+			n++
+			key := fmt.Sprintf("canvas.%s|flag %s only accumulates between reset and use", core.FuncName(fd), o.Name())
+			bad := ""
+			var badPos token.Pos
+			for i, a := range as {
+				if a.kind != "plain" {
+					continue
+				}
+				// an earlier non-constant assignment since the last reset that may precede it
+				for j := i - 1; j >= 0; j-- {
+					if as[j].kind == "const" && !exclusive(as[j], a) {
+						break
+					}
+					if as[j].kind != "const" && !exclusive(as[j], a) {
+						bad = fmt.Sprintf("`%s` overwrites the flag after it may already have been set at %s", c.Src(a.node), c.Pos(as[j].pos))
+						badPos = a.pos
+						break
+					}
+				}
+				if bad != "" {
+					break
+				}
+			}
+			if bad == "" {
+				r.OK("E11.sticky-flag", key, c.Pos(as[0].pos), fmt.Sprintf("%d assignments", len(as)))
+			} else {
+				r.Fail("E11.sticky-flag", key, c.Pos(badPos), bad+": what the earlier step reported is forgotten, although the flag is accumulated with `||` elsewhere and consulted afterwards")
+			}
+		}
+	}
+	r.Count("E11.sticky-flags", n)
+	r.Floor("E11.sticky-flags", 1)
+}
+
+// E11SVGMiterLimitCarried: every miter joiner the importer installs carries the miter limit in effect.
+func E11SVGMiterLimitCarried(c *core.Ctx, r *core.Report) {
+	r.Rule("E11.svg-miterlimit-carried", "stroke-miterlimit is an inherited SVG property of its own: the importer keeps it in the parser state (written by the `stroke-miterlimit` case, saved and restored with the state), independent of the order in which it and stroke-linejoin arrive. Wherever svg.go hands a miter joiner to SetStrokeJoiner — a MiterJoiner literal, or one of the package's predefined joiners whose initialiser is a MiterJoiner literal (MiterJoin, MiterClipJoin, which carry the fixed limit 4) — its Limit is read from a strokeMiterLimit state field. With the predefined joiner, `<g stroke-miterlimit=\"10\"><path stroke-linejoin=\"miter\" …/></g>` bevels corners the document asks to be mitered")
+	p := c.MustPkg("")
+	info := p.TypesInfo
+	// package-level variables initialised with a MiterJoiner literal
+	predefined := map[types.Object]bool{}
+	for _, f := range p.Syntax {
+		for _, d := range f.Decls {
+			gd, ok := d.(*ast.GenDecl)
+			if !ok || gd.Tok != token.VAR {
+				continue
+			}
+			for _, sp := range gd.Specs {
+				vs := sp.(*ast.ValueSpec)
+				for i, nm := range vs.Names {
+					if i < len(vs.Values) {
+						if cl, ok := core.Unparen(vs.Values[i]).(*ast.CompositeLit); ok {
+							if t := info.TypeOf(cl); t != nil && strings.HasSuffix(t.String(), "MiterJoiner") {
+								predefined[info.Defs[nm]] = true
+							}
+						}
+					}
+				}
+			}
+		}
+	}
+	n := 0
+	for _, fd := range core.AllFuncDecls(p) {
+		if !strings.HasSuffix(c.Fset.Position(fd.Pos()).Filename, "/svg.go") {
+			continue
+		}
+		ord := 0
+		ast.Inspect(fd.Body, func(m ast.Node) bool {
+			call, ok := m.(*ast.CallExpr)
+			if !ok || len(call.Args) != 1 {
+				return true
+			}
+			if f := core.CalleeOf(info, call); f == nil || f.Name() != "SetStrokeJoiner" {
+				return true
+			}
+			arg := core.Unparen(call.Args[0])
+			var lit *ast.CompositeLit
+			isPre := false
+			switch x := arg.(type) {
+			case *ast.CompositeLit:
+				if t := info.TypeOf(x); t != nil && strings.HasSuffix(t.String(), "MiterJoiner") {
+					lit = x
+				}
+			case *ast.Ident:
+				if predefined[core.ObjOf(info, x)] {
+					isPre = true
+				}
+			}
+			if lit == nil && !isPre {
+				return true // not a miter joiner (or a local whose Limit the caller patches)
+			}
+			ord++
+			n++
+			key := fmt.Sprintf("canvas.%s|miter joiner #%d carries the state's limit", core.FuncName(fd), ord)
+			if isPre {
+				r.Fail("E11.svg-miterlimit-carried", key, c.Pos(call.Pos()), "the predefined joiner `"+types.ExprString(arg)+"` with its fixed limit is installed: a stroke-miterlimit set earlier (inherited from a group, from a style sheet, or earlier in the attribute list) is forgotten")
+				return true
+			}
+			var limit ast.Expr
+			for i, el := range lit.Elts {
+				if kv, ok := el.(*ast.KeyValueExpr); ok {
+					if k, ok := kv.Key.(*ast.Ident); ok && k.Name == "Limit" {
+						limit = kv.Value
+					}
+				} else if i == 1 {
+					limit = el
+				}
+			}
+			if limit != nil {
+				if se, ok := core.Unparen(limit).(*ast.SelectorExpr); ok && se.Sel.Name == "strokeMiterLimit" {
+					r.OK("E11.svg-miterlimit-carried", key, c.Pos(call.Pos()), types.ExprString(limit))
+					return true
+				}
+			}
+			r.Fail("E11.svg-miterlimit-carried", key, c.Pos(call.Pos()), "the joiner's Limit is not read from the parser state's strokeMiterLimit")
+			return true
+		})
+	}
+	r.Count("E11.svg-miter-joiners", n)
+	r.Floor("E11.svg-miter-joiners", 3)
+}
+
+// E11ArcSpanMagnitude: Path.Arc compares the angular span with π and 2π by magnitude.
+func E11ArcSpanMagnitude(c *core.Ctx, r *core.Report) {
+	r.Rule("E11.arc-span-magnitude", "Path.Arc accepts its two angles in either order; the direction goes into the sweep flag, and everything that depends on how far the arc turns — the large-arc flag (`span mod 2π > π`), the split of full turns (`span ≥ 2π`) — is decided on the magnitude of the difference. Every ordering comparison of Arc between a positive constant and a value that depends on both angle parameters is therefore made on a value that is non-negative by construction (math.Abs, preserved by math.Mod and by products of non-negative factors; locals resolved to their last assignment before the comparison). math.Mod keeps the sign of its dividend: with the signed difference, the large flag is never set for a clockwise arc, and ArcTo stores the short arc around the other centre")
+	p := c.MustPkg("")
+	info := p.TypesInfo
+	fd := core.MustFuncDecl(p, "Path.Arc")
+	r.Func("canvas.Path.Arc")
+	var angles []types.Object
+	k := 0
+	for _, f := range fd.Type.Params.List {
+		for _, nm := range f.Names {
+			if k >= 3 {
+				angles = append(angles, info.Defs[nm])
+			}
+			k++
+		}
+	}
+	if len(angles) != 2 {
+		panic(core.Infra("Path.Arc: the two angle parameters were not found"))
+	}
+	type def struct {
+		pos token.Pos
+		rhs ast.Expr
+		tok token.Token
+	}
+	defs := map[types.Object][]def{}
+	ast.Inspect(fd.Body, func(m ast.Node) bool {
+		as, ok := m.(*ast.AssignStmt)
+		if !ok || len(as.Lhs) != len(as.Rhs) {
+			return true
+		}
+		for i, l := range as.Lhs {
+			if id, ok := l.(*ast.Ident); ok {
+				defs[core.ObjOf(info, id)] = append(defs[core.ObjOf(info, id)], def{as.Pos(), as.Rhs[i], as.Tok})
+			}
+		}
+		return true
+	})
+	lastDef := func(o types.Object, at token.Pos) *def {
+		var best *def
+		for i := range defs[o] {
+			if d := &defs[o][i]; d.pos < at && (best == nil || d.pos > best.pos) {
+				best = d
+			}
+		}
+		return best
+	}
+	var dependsOn func(e ast.Expr, at token.Pos, depth int) map[types.Object]bool
+	dependsOn = func(e ast.Expr, at token.Pos, depth int) map[types.Object]bool {
+		out := map[types.Object]bool{}
+		if depth > 10 {
+			return out
+		}
+		ast.Inspect(e, func(m ast.Node) bool {
+			id, ok := m.(*ast.Ident)
+			if !ok {
+				return true
+			}
+			o := core.ObjOf(info, id)
+			if o == angles[0] || o == angles[1] {
+				out[o] = true
+			}
+			if d := lastDef(o, at); d != nil {
+				for a := range dependsOn(d.rhs, d.pos, depth+1) {
+					out[a] = true
+				}
+			}
+			return true
+		})
+		return out
+	}
+	var nonneg func(e ast.Expr, at token.Pos, depth int) bool
+	nonneg = func(e ast.Expr, at token.Pos, depth int) bool {
+		if depth > 10 {
+			return false
+		}
+		e = core.Unparen(e)
+		if tv, ok := info.Types[e]; ok && tv.Value != nil {
+			f, ok := constantFloat(tv.Value)
+			return ok && f >= 0
+		}
+		switch x := e.(type) {
+		case *ast.CallExpr:
+			name, call := core.MathFunc(info, x)
+			switch name {
+			case "Abs":
+				return true
+			case "Mod":
+				return len(call.Args) == 2 && nonneg(call.Args[0], at, depth+1)
+			case "Sqrt", "Hypot":
+				return true
+			}
+		case *ast.BinaryExpr:
+			if x.Op == token.MUL || x.Op == token.QUO || x.Op == token.ADD {
+				return nonneg(x.X, at, depth+1) && nonneg(x.Y, at, depth+1)
+			}
+		case *ast.Ident:
+			if d := lastDef(core.ObjOf(info, x), at); d != nil && (d.tok == token.DEFINE || d.tok == token.ASSIGN) {
+				return nonneg(d.rhs, d.pos, depth+1)
+			}
+		}
+		return false
+	}
+	n := 0
+	ast.Inspect(fd.Body, func(m ast.Node) bool {
+		be, ok := m.(*ast.BinaryExpr)
+		if !ok || (be.Op != token.LSS && be.Op != token.LEQ && be.Op != token.GTR && be.Op != token.GEQ) {
+			return true
+		}
+		var val ast.Expr
+		isPos := func(e ast.Expr) bool {
+			tv, ok := info.Types[e]
+			if !ok || tv.Value == nil {
+				return false
+			}
+			f, ok := constantFloat(tv.Value)
+			return ok && f > 0
+		}
+		switch {
+		case isPos(be.Y):
+			val = be.X
+		case isPos(be.X):
+			val = be.Y
+		default:
+			return true
+		}
+		if d := dependsOn(val, be.Pos(), 0); !d[angles[0]] || !d[angles[1]] {
+			return true
+		}
+		n++
+		key := fmt.Sprintf("canvas.Path.Arc|comparison #%d of the angular span with a positive constant", n)
+		if nonneg(val, be.Pos(), 0) {
+			r.OK("E11.arc-span-magnitude", key, c.Pos(be.Pos()), types.ExprString(be))
+		} else {
+			r.Fail("E11.arc-span-magnitude", key, c.Pos(be.Pos()), "`"+types.ExprString(be)+"` compares a value that carries the sign of the angle difference (math.Mod keeps the sign of its dividend): for clockwise arcs the comparison never holds, so arcs longer than a half turn lose their large-arc flag or full turns are not split")
+		}
+		return true
+	})
+	r.Count("E11.arc-span-comparisons", n)
+	r.Floor("E11.arc-span-comparisons", 2)
+}
